@@ -49,56 +49,80 @@ func verifOneSpanTrace(sp *types.Span) *types.Trace {
 	return tr
 }
 
-// C09 (numeric wire types): one numerically equal value carried as msgpack int64 / int32 / uint64 /
-// uint32 / uint8 (integers) or float64 / float32 (floats), decoded at ingestion or on demand, gives
-// the same rule outcome for every comparison operator, datatype and condition value, and the same
-// dynamic sample key.
-func Harness_C09_wire_numeric() {
-	zz.MustCover("(*github.com/honeycombio/refinery/types.Payload).Get",
-		"(*github.com/honeycombio/refinery/sample.RulesBasedSampler).GetSampleRate",
-		"(*github.com/honeycombio/refinery/sample.traceKey).build")
-	zz.AssumeHashInjective()
-	zz.Bound("spans", 1)
-	var rawA, rawB []byte
-	isFloat := zz.NondetBool("float")
-	if isFloat {
+// the same number in two msgpack encodings: int64 vs int32 / uint64 / uint32 / uint8 / float64 of an
+// integer (intAsFloat), or float64 vs float32 of a float
+func verifTwoEncodings() (rawA, rawB []byte, intAsFloat bool) {
+	if zz.NondetBool("float") {
 		f := math.Float32frombits(zz.NondetUint32("f32bits"))
 		zz.Assume(f == f)
 		zz.Assume(f != 0)
-		rawA = verifBE(0xcb, math.Float64bits(float64(f)), 8)
-		rawB = verifBE(0xca, uint64(math.Float32bits(f)), 4)
-	} else {
-		v := zz.NondetUint64("value")
-		rawA = verifBE(0xd3, v, 8) // int64: what a Go client and the JSON path produce
-		switch zz.Choose("encoding", 4) {
-		case 0:
-			zz.Assume(v < 1<<63)
-			rawB = verifBE(0xcf, v, 8) // uint64
-		case 1:
-			zz.Assume(v < 1<<32)
-			rawB = verifBE(0xce, v, 4) // uint32
-		case 2:
-			zz.Assume(v < 1<<8)
-			rawB = verifBE(0xcc, v, 1) // uint8
-		default:
-			zz.Assume(v < 1<<31)
-			rawB = verifBE(0xd2, v, 4) // int32
-		}
+		return verifBE(0xcb, math.Float64bits(float64(f)), 8), verifBE(0xca, uint64(math.Float32bits(f)), 4), false
 	}
+	v := zz.NondetUint64("value")
+	rawA = verifBE(0xd3, v, 8) // int64: what a Go client and the JSON path produce
+	switch zz.Choose("encoding", 5) {
+	case 4:
+		// the same integer sent as a float64 (what a JSON client's 2.0 or a float-typed producer gives)
+		if zz.Thorough() {
+			zz.Assume(v < 1<<53)
+		} else {
+			zz.Assume(v < 1<<16)
+		}
+		rawB = verifBE(0xcb, math.Float64bits(float64(v)), 8)
+		intAsFloat = true
+	case 0:
+		zz.Assume(v < 1<<63)
+		rawB = verifBE(0xcf, v, 8) // uint64
+	case 1:
+		zz.Assume(v < 1<<32)
+		rawB = verifBE(0xce, v, 4) // uint32
+	case 2:
+		zz.Assume(v < 1<<8)
+		rawB = verifBE(0xcc, v, 1) // uint8
+	default:
+		zz.Assume(v < 1<<31)
+		rawB = verifBE(0xd2, v, 4) // int32
+	}
+	return rawA, rawB, intAsFloat
+}
+
+// C09 (numeric wire types, sample key): one numerically equal value carried as msgpack int64 /
+// int32 / uint64 / uint32 / uint8 or float64 / float32, decoded at ingestion or on demand, gives
+// the same dynamic sample key.
+func Harness_C09_wire_key() {
+	zz.MustCover("(*github.com/honeycombio/refinery/types.Payload).Get",
+		"(*github.com/honeycombio/refinery/sample.traceKey).build")
+	zz.AssumeHashInjective()
+	zz.Bound("spans", 1)
+	rawA, rawB, intAsFloat := verifTwoEncodings()
+	// number formatting is an uninterpreted token per Go type: int-vs-float rendering is outside the model
+	zz.Assume(!intAsFloat)
 	memo := zz.NondetBool("memoised")
 	ta := verifOneSpanTrace(verifWireSpan(rawA, memo))
 	tb := verifOneSpanTrace(verifWireSpan(rawB, memo))
-
-	// the dynamic sample key
 	ka, _ := newTraceKey([]string{"f"}, false).build(ta)
 	kb, _ := newTraceKey([]string{"f"}, false).build(tb)
 	zz.Assert(ka == kb, "numerically equal values give the same sample key whatever their wire type")
+}
 
-	// a rule comparing the field
+// C09 (numeric wire types, rules): the same pairs of encodings, plus an integer sent as a float64,
+// give the same rule outcome for every comparison operator, in / not-in, datatype and condition value.
+func Harness_C09_wire_rules() {
+	zz.MustCover("(*github.com/honeycombio/refinery/types.Payload).Get",
+		"(*github.com/honeycombio/refinery/sample.RulesBasedSampler).GetSampleRate")
+	zz.Bound("spans", 1)
+	rawA, rawB, intAsFloat := verifTwoEncodings()
+	memo := zz.NondetBool("memoised")
+	ta := verifOneSpanTrace(verifWireSpan(rawA, memo))
+	tb := verifOneSpanTrace(verifWireSpan(rawB, memo))
 	ops := []string{config.EQ, config.NEQ, config.GT, config.GTE, config.LT, config.LTE, config.In, config.NotIn}
-	op := ops[zz.Choose("op", len(ops))]
+	opi := zz.Choose("op", len(ops))
+	op := ops[opi]
 	dts := []string{"", "int", "float"}
 	dt := dts[zz.Choose("datatype", len(dts))]
+	if intAsFloat && dt == "" {
+		zz.Assume(opi < 6) // in / not-in without a datatype compare the %v renderings (see above)
+	}
 	var val any
 	if zz.NondetBool("floatValue") {
 		fv := zz.NondetFloat64("K.float")
